@@ -14,8 +14,15 @@ pub fn explore(opts: &Opts) -> Explored {
     };
     let mut sh = shapes(rank, dim);
     sh.extend(long_shapes());
-    let ops = [OpK::Add, OpK::Sub, OpK::Mul, OpK::Div, OpK::Axpy(-2.0), OpK::Axpy(3.0)];
-    let variants: Vec<u64> = if IS_F32 { vec![opts.seed % 3, (opts.seed + 1) % 3, 3, 4, 5] } else { vec![opts.seed % 3, (opts.seed + 1) % 3, 3, 4, 5, 6] };
+    // scalars that no binary format represents exactly (0.1, 1000/3) and, in double precision, scalars
+    // outside the single-precision range: a scalar that is narrowed or re-derived on its way shows
+    let mut ops = vec![OpK::Add, OpK::Sub, OpK::Mul, OpK::Div, OpK::Axpy(-2.0), OpK::Axpy(3.0), OpK::Axpy(0.1), OpK::Axpy(1000.0 / 3.0)];
+    if !IS_F32 {
+        ops.push(OpK::Axpy(1.0e40));
+        ops.push(OpK::Axpy(-1.0e-50));
+    }
+    // 9: the second operand is subnormal (its reciprocal is not representable), the first has a zero
+    let variants: Vec<u64> = if IS_F32 { vec![opts.seed % 3, (opts.seed + 1) % 3, 3, 4, 5, 9] } else { vec![opts.seed % 3, (opts.seed + 1) % 3, 3, 4, 5, 6, 9] };
     let n = sh.len() * sh.len();
     let local = par(opts, n, |i, l| {
         let a_dims = &sh[i / sh.len()];
@@ -29,11 +36,22 @@ pub fn explore(opts: &Opts) -> Explored {
                 if !l.want(&case) {
                     continue;
                 }
-                let av = vals(numel(a_dims), 0, var);
-                let bv = vals(numel(b_dims), 1, var);
+                if var == 9 && !matches!(op, OpK::Div | OpK::Mul) {
+                    continue;
+                }
+                let (av, bv) = if var == 9 {
+                    let (sa, sb) = if IS_F32 { ((2.0f64).powi(-120), (2.0f64).powi(-140)) } else { ((2.0f64).powi(-1000), (2.0f64).powi(-1060)) };
+                    let mut av: Vec<f64> = vals(numel(a_dims), 0, 0).iter().map(|v| v * sa).collect();
+                    av[0] = 0.0;
+                    (av, vals(numel(b_dims), 1, 0).iter().map(|v| v * sb).collect())
+                } else {
+                    (vals(numel(a_dims), 0, var), vals(numel(b_dims), 1, var))
+                };
                 let ra = T::from_f64(a_dims.clone(), &av);
                 let rb = T::from_f64(b_dims.clone(), &bv);
-                let expect = apply_ref(op, &[&ra, &rb]);
+                // the reference's conditioning guard for divisors (|y| >= 0.05) protects derivative checks; the
+                // quotient itself is defined for every non-zero divisor, subnormal ones included
+                let expect = if var == 9 && matches!(op, OpK::Div) { ra.zip(&rb, |x, y| x.div(y)) } else { apply_ref(op, &[&ra, &rb]) };
                 let a = arr(a_dims, &av);
                 let b = arr(b_dims, &bv);
                 let got = run_catch(|| {
@@ -139,7 +157,7 @@ pub fn explore(opts: &Opts) -> Explored {
         local,
         bounds: json!({"max_rank": rank, "max_dim": dim, "plus_long_shapes": long_shapes(), "shapes": sh.len(), "ordered_pairs": n,
                        "ops": ops.iter().map(|o| o.name()).collect::<Vec<_>>(), "valuations": variants}),
-        rule: "every ordered pair of shapes of S(rank,dim) x {add,sub,mul,div,axpy(-2),axpy(3)} x 2 valuations; a state is a shape pair, a transition one library call compared with the index-definition reference (value, dimensions, or mandatory refusal)".into(),
+        rule: "every ordered pair of shapes of S(rank,dim) x {add,sub,mul,div,axpy with dyadic, non-dyadic and extreme scalars} x valuations (generic, constant, zero, tiny, subnormal divisors); a state is a shape pair, a transition one library call compared with the index-definition reference (value, dimensions, or mandatory refusal)".into(),
         exhaustive: true,
         assumptions: vec!["array contents are fixed generic valuations (distinct integers), not enumerated".into()],
     }
